@@ -114,6 +114,9 @@ def run(ck, models, tier):
                       where(frees[0]) if frees else None)
         if tm.arch != "arm":
             ck.floor("R12.2", "drop-release-paths", nrel, 1, tm.target)
+            # R12.4 the release comes after the restore
+            k4 = restore_before_release(ck, tm, g, "R12.4")
+            ck.floor("R12.4", "drop-paths-with-restore-and-release", k4, 1, tm.target)
         # not Clone / Copy, single construction site, fields never assigned
         ck.ob("R12.2", "guard-not-clone", tm.target, not tm.facts.has_impl("std::clone::Clone", g.adt) and not tm.facts.has_impl("std::marker::Copy", g.adt),
               "%s implements Clone: %s, Copy: %s" % (short(g.adt), tm.facts.has_impl("std::clone::Clone", g.adt), tm.facts.has_impl("std::marker::Copy", g.adt)))
